@@ -50,9 +50,15 @@ type Ctx struct {
 	out  *[]Obligation
 	// Stats for evidence
 	Funcs map[string]bool
+	// Keep, when set, restricts the obligations recorded to the constructs it accepts
+	// (a rule re-registered under another id for the part that concerns one property).
+	Keep func(construct string) bool
 }
 
 func (c *Ctx) add(verdict, construct string, pos token.Pos, format string, args ...interface{}) {
+	if c.Keep != nil && !c.Keep(construct) {
+		return
+	}
 	o := Obligation{Rule: c.rule.ID, Construct: construct, Pos: c.Prog.Pos(pos), Verdict: verdict,
 		Reason: fmt.Sprintf(format, args...)}
 	if c.Prog.GOARCH != "amd64" {
